@@ -352,4 +352,110 @@ theorem i128DivRounded_spec (prof : Profile) (tm : Mode) (mode : Option Mode) (n
     unfold i128DivRounded
     exact divRoundedTail prof tm mode n d (by unfold I128_MIN I128_MAX at *; omega) (by omega) (by unfold I128_MAX at *; omega)
 
+/-! ### the dividend `i128::MIN` -/
+
+/-- `i128_div_mod_floor(i128::MIN, y)` for a negative divisor other than `-1`: `tdiv`/`tmod` do not overflow, the remainder is
+    `≤ 0`, so no floor adjustment happens -/
+theorem i128DivModFloor_minx (prof : Profile) (y : Int) (hy0 : y < 0) (hy1 : y ≠ -1) :
+    i128DivModFloor prof I128_MIN y = .ok ((-I128_MIN) / (-y), -((-I128_MIN) % (-y))) := by
+  have e0 : -I128_MIN = 170141183460469231731687303715884105728 := by decide
+  have hD : 0 < -y := by omega
+  have e1 : I128_MIN.tdiv y = (-I128_MIN) / (-y) := by
+    rw [← Int.neg_tdiv_neg, Int.tdiv_eq_ediv_of_nonneg (by rw [e0]; decide)]
+  have e2 : I128_MIN.tmod y = -((-I128_MIN) % (-y)) := by
+    have : I128_MIN.tmod y = -((-I128_MIN).tmod (-y)) := by rw [Int.tmod_neg, Int.neg_tmod, Int.neg_neg]
+    rw [this, Int.tmod_eq_emod_of_nonneg (by rw [e0]; decide)]
+  have hne : y ≠ 0 := by omega
+  unfold i128DivModFloor divI128 remI128
+  simp only [hne, hy1, and_false, if_false, Outcome.bind_ok, e1, e2]
+  have h1 := Int.emod_nonneg (-I128_MIN) (Int.ne_of_gt hD)
+  have hc : ¬ ((-(-I128_MIN % -y) > 0 ∧ y < 0) ∨ (-(-I128_MIN % -y) < 0 ∧ y > 0)) := by omega
+  simp only [hc, if_false, Outcome.pure_eq]
+
+/-- floor division by any negative divisor, any i128 dividend: everything except the pair `(i128::MIN, -1)`, on which `/` panics -/
+theorem i128DivModFloor_neg_full (prof : Profile) (x y : Int) (hx : I128_MIN ≤ x ∧ x ≤ I128_MAX) (hy0 : y < 0)
+    (hy : I128_MIN ≤ y) (hc : ¬ (x = I128_MIN ∧ y = -1)) :
+    i128DivModFloor prof x y = .ok ((-x) / (-y), -((-x) % (-y))) := by
+  by_cases h : x = I128_MIN
+  · subst h
+    exact i128DivModFloor_minx prof y hy0 (fun h1 => hc ⟨rfl, h1⟩)
+  · exact i128DivModFloor_neg' prof x y ⟨by omega, hx.2⟩ hy0 hy
+
+/-- the pair on which Rust's `/` overflows: `i128::MIN / -1` panics in every profile -/
+theorem i128DivModFloor_min_neg_one (prof : Profile) : i128DivModFloor prof I128_MIN (-1) = .panic .arith := by
+  unfold i128DivModFloor divI128
+  simp
+
+/-- the rounded quotient fits for a dividend up to `2^127 = |i128::MIN|` as long as that dividend is not divided by one -/
+theorem specRound_fits_abs (m : Mode) (n d : Int) (hn : I128_MIN ≤ n ∧ n ≤ I128_MAX + 1) (hd : 0 < d)
+    (hc : n = I128_MAX + 1 → 2 ≤ d) : fitsI128 (Spec.specRound m n d) = true := by
+  by_cases hle : n ≤ I128_MAX
+  · exact specRound_fits m n d ⟨hn.1, hle⟩ hd
+  · have hn' : n = I128_MAX + 1 := by omega
+    have hd2 := hc hn'
+    have h1 := Int.emod_nonneg n (Int.ne_of_gt hd)
+    have h2 := Int.emod_lt_of_pos n hd
+    have h3 := Int.mul_ediv_add_emod n d
+    have hq0 : 0 ≤ n / d := Int.ediv_nonneg (by unfold I128_MAX at hn'; omega) (Int.le_of_lt hd)
+    have hq2 : 2 * (n / d) ≤ d * (n / d) := Int.mul_le_mul_of_nonneg_right hd2 hq0
+    unfold I128_MAX at hn'
+    rw [fitsI128_iff]; unfold I128_MIN I128_MAX
+    unfold Spec.specRound
+    simp only []
+    cases m <;> simp only [] <;> (repeat' split) <;> omega
+
+/-- `i128_div_rounded(i128::MIN, d, mode)` for every non-zero divisor except `-1` -/
+theorem i128DivRounded_minx (prof : Profile) (tm : Mode) (mode : Option Mode) (d : Int)
+    (hd : I128_MIN ≤ d ∧ d ≤ I128_MAX) (hd0 : d ≠ 0) (hd1 : d ≠ -1) :
+    i128DivRounded prof tm I128_MIN d mode = .ok (Spec.specRoundQ (mode.getD tm) I128_MIN d) := by
+  unfold Spec.specRoundQ
+  by_cases hneg : d < 0
+  · rw [if_pos hneg]
+    have e0 : -I128_MIN = 170141183460469231731687303715884105728 := by decide
+    have hD : 0 < -d := by omega
+    have hD2 : 2 ≤ -d := by omega
+    have hDu : -d ≤ I128_MAX + 1 := by unfold I128_MIN I128_MAX at *; omega
+    unfold i128DivRounded
+    rw [i128DivModFloor_minx prof d hneg hd1]
+    simp only [Outcome.bind_ok]
+    have h1 := Int.emod_nonneg (-I128_MIN) (Int.ne_of_gt hD)
+    have ea : (-(-I128_MIN % -d)).natAbs = (-I128_MIN % -d).toNat := by omega
+    have eb : d.natAbs = (-d).toNat := by omega
+    rw [ea, eb]
+    have hsf : ∀ m : Mode, fitsI128 (Spec.specRound m (-I128_MIN) (-d)) = true := fun m =>
+      specRound_fits_abs m (-I128_MIN) (-d) (by rw [e0]; unfold I128_MIN I128_MAX; omega) hD (fun _ => hD2)
+    have hqf : fitsI128 (-I128_MIN / -d) = true := by
+      have h3 := Int.mul_ediv_add_emod (-I128_MIN) (-d)
+      have hq0 : 0 ≤ -I128_MIN / -d := Int.ediv_nonneg (by rw [e0]; decide) (Int.le_of_lt hD)
+      have hq2 : 2 * (-I128_MIN / -d) ≤ -d * (-I128_MIN / -d) := Int.mul_le_mul_of_nonneg_right hD2 hq0
+      rw [fitsI128_iff]
+      rw [e0] at h3 h1 hq0 hq2 ⊢
+      unfold I128_MIN I128_MAX; omega
+    cases mode with
+    | none =>
+      rw [roundQuot_none, roundQuot_spec tm tm _ _ hD hDu hqf, checkedI128_some (hsf tm)]
+      rfl
+    | some m =>
+      rw [roundQuot_spec tm m _ _ hD hDu hqf, checkedI128_some (hsf m)]
+      rfl
+  · rw [if_neg hneg]
+    exact i128DivRounded_pos prof tm mode I128_MIN d (by decide) (by omega) hd.2
+
+/-- `i128_div_rounded(i128::MIN, -1, mode)` panics (`i128::MIN / -1` in `i128_div_mod_floor`), in every profile -/
+theorem i128DivRounded_min_neg_one (prof : Profile) (tm : Mode) (mode : Option Mode) :
+    i128DivRounded prof tm I128_MIN (-1) mode = .panic .arith := by
+  unfold i128DivRounded
+  rw [i128DivModFloor_min_neg_one]
+  rfl
+
+/-- `i128DivRounded_spec` for the whole i128 range of the dividend: every pair of in-range operands with a non-zero divisor except
+    `(i128::MIN, -1)`, whose exact quotient `2^127` is not an i128 -/
+theorem i128DivRounded_spec_full (prof : Profile) (tm : Mode) (mode : Option Mode) (n d : Int)
+    (hn : I128_MIN ≤ n ∧ n ≤ I128_MAX) (hd : I128_MIN ≤ d ∧ d ≤ I128_MAX) (hd0 : d ≠ 0) (hc : ¬ (n = I128_MIN ∧ d = -1)) :
+    i128DivRounded prof tm n d mode = .ok (Spec.specRoundQ (mode.getD tm) n d) := by
+  by_cases h : n = I128_MIN
+  · subst h
+    exact i128DivRounded_minx prof tm mode d hd hd0 (fun h1 => hc ⟨rfl, h1⟩)
+  · exact i128DivRounded_spec prof tm mode n d ⟨by omega, hn.2⟩ hd hd0
+
 end Fpdec
